@@ -1108,6 +1108,21 @@ def check_list(ctx, classes, arity_rule=None, empty_and_rule=None):
     f = find_list_translator(prog)
     param = f.params[0]
     mod = f.module
+    # a translator in two passes (entries collected by one loop, built by a
+    # second one): the paths explore each loop for zero or one element
+    # independently, so the two cannot be related
+    top_loops = [st for st in f.node.body if isinstance(st, ast.For)]
+    if len(top_loops) > 1 and any(
+            isinstance(n, ast.Name) and n.id in {
+                U(method_call(c)[0]) for lp in top_loops[:-1]
+                for c in ast.walk(lp) if isinstance(c, ast.Call)
+                and method_call(c, 'append')}
+            for n in ast.walk(top_loops[-1].iter)):
+        raise AnalysisError(
+            'the list translator %s works in two passes (line %d collects '
+            'what the loop at line %d iterates): the path rules on entries '
+            'and members read a single pass' % (
+                f.qual, top_loops[0].lineno, top_loops[-1].lineno))
 
     def inline(call, frame):
         g = prog.callee_of(frame, call)
